@@ -110,3 +110,10 @@ impl Rng {
         self.next() % den < num
     }
 }
+
+/// position-dependent content for the real-kernel byte streams: byte at offset `i` of stream `s` (0 = stdin,
+/// 1 = stdout, 2 = stderr).  Any loss, duplication, reordering or mis-routing changes some byte.
+pub fn pat(s: usize, i: u64) -> u8 {
+    let x = (i as u32).wrapping_mul(2654435761).wrapping_add((i >> 32) as u32);
+    (((x >> 13) as u8) ^ [0x11u8, 0x5a, 0xa7][s]).wrapping_add((i / 4093) as u8)
+}
